@@ -250,6 +250,8 @@ class C03(L1Prop):
                         fails.append(f"{kv['fast_errors']} requests were answered with an error well inside the lock-wait budget merely because other requests overlapped: {kv['first']}")
                     if kv["parents_twice"] != "0":
                         fails.append(f"{kv['parents_twice']} parents were accepted twice by overlapping AddVersion requests")
+                    if kv.get("torn_snapshots", "0") != "0":
+                        fails.append(f"{kv['torn_snapshots']} GetSnapshot answers carried a version id and bytes that come from DIFFERENT uploads (every uploaded snapshot names its version in its bytes)")
                     if kv["orphans"] != "0" or kv["unacknowledged_on_chain"] != "0" or kv["walk"] != "ok":
                         fails.append(f"after the overlap the stored chain is not the acknowledged versions: {kv['orphans']} accepted versions are not on it, "
                                      f"{kv['unacknowledged_on_chain']} versions on it were never acknowledged, walk {kv['walk']}")
@@ -395,6 +397,11 @@ def overlap_cases(prop, rng, tier):
             reqs = [kk[a].format(d="21"), kk[b].format(d="22")]
             ops = list(PREFIX2 if a in KINDS2 else PREFIX) + ["conc shared " + " || ".join(reqs) + " ## " + " ".join(s), "dump 1", "dump 5", "walk 1", "walk 5",
                                   "http GET gcv hyph=ver:1:2 hyph=1 absent e", "http GET snap - hyph=1 absent e", "swalk 1"]
+            if prop == "C08":
+                # afterwards, one at a time, through the same server object: the question and the upload that follows,
+                # for the client that was new when the overlap began
+                ops += ["http GET gcv hyph=nil hyph=5 absent e", "http POST av hyph=nil hyph=5 history b:23", "http GET gcv hyph=latest:5 hyph=5 absent e",
+                        "http POST av hyph=latest:5 hyph=5 history b:24", "http GET gcv hyph=anc:5:1 hyph=5 absent e"]
             out.append(Case(f"{prop.lower()}-ovl-{k}", ops, {"reqs": reqs, "group": f"{a}+{b}", "sched": s, "cmode": "shared", "overlap": True}, mode="http"))
             k += 1
     return out
@@ -439,6 +446,18 @@ def overlap_oracle(prop, case, trace, backend):
                     fails.append(f"GetChildVersion answered gone although an AddVersion on that parent is accepted before and its child exists after {where}")
             if h.route == "gcv" and r.status >= 500:
                 fails.append(f"GetChildVersion answered {r.status} {where}")
+        # after the overlap, one at a time: not-found exactly when the upload that follows is accepted, gone exactly
+        # when it is rejected — and a parent whose child was just accepted has a child
+        tail = [(HOp(o), HResp(ri)) for (o, ri, rm) in trace[start + 1 + n:] if o.startswith("http ")]
+        for j in range(len(tail) - 1):
+            (h1, r1), (h2, r2) = tail[j], tail[j + 1]
+            if h1.route == "gcv" and h2.route == "av" and h1.cid == h2.cid and h1.seg == h2.seg:
+                if r1.status == 404 and r2.status != 200:
+                    fails.append(f"after the overlap get-child-version({h1.seg}) of client {h1.cid} answered 404 but the upload on that parent was answered {r2.status} {where}")
+                if r1.status == 410 and r2.status != 409:
+                    fails.append(f"after the overlap get-child-version({h1.seg}) answered 410 but the upload on that parent was answered {r2.status} {where}")
+            if h1.route == "av" and r1.status == 200 and h2.route == "gcv" and h2.cid == h1.cid and h2.seg == h1.seg and r2.status != 200:
+                fails.append(f"after the overlap the child of {h1.seg} was just accepted ({r1.xv}) but get-child-version answered {r2.status} {where}")
     if prop in ("C10", "C18"):
         # (C18: the upload for the older version is a DECLINED one in every one-at-a-time order in which
         # it comes second, and a replaced one when it comes first: either way it does not survive)
